@@ -18,9 +18,15 @@ Three parts, all on the harness-owned virtual-time loop (vlib/vtime.py):
   argument) reports handles that sit in the ready queue while the loop would sleep forever.  Only
   order-independent clauses: every payload exactly once (none lost, none queued without a wake-up),
   per-thread FIFO.
-* run_sync: function returning None / raising / coroutine finishing before or after the timeout /
-  never finishing; result, exception identity, TimeoutError + the coroutine saw CancelledError,
-  not earlier than the timeout on the loop's clock; afterwards the loop is stopped and reusable.
+* run_sync: function returning None / raising / returning a done future / coroutine that awaits nothing /
+  coroutine finishing before or after the timeout / never finishing; timeout None, quarter-second
+  multiples, and the boundary values 0, 0.0 and 1e-9 (below one ulp of the clock).  Result, exception
+  identity, TimeoutError + the coroutine saw CancelledError (unless it was cancelled before its first
+  step), not earlier than the deadline on the loop's clock; afterwards the loop is stopped and reusable.
+  Boundary rule (from the docstring "maximum duration ... If the timeout expires, a TimeoutError is
+  raised"): with timeout 0 whatever still needs a later loop turn must time out; a function whose
+  outcome is known when func() returns is EITHER (result or TimeoutError); 1e-9 against zero-time work
+  is a tie, EITHER.  Open finding F-C38-run-sync-stale-stop lives here (see findings_inbox).
 
 Oracle clauses (statement transcribed): each add_callback callback exactly once, execution order ==
 scheduling order; a timeout runs at most once, never while loop.time() < deadline, never after
@@ -47,6 +53,9 @@ Sensitivity (quick tier, seed 1, one textual mutation at a time on a scratch cop
     (C38.threads.callback_queued_without_wakeup) since producers that run their own asyncio/Tornado loop and the
     idle-target mode were added.  Earlier version: missed (plain producers only; the joiner's wake-up and the
     virtual loop's 5 ms polling masked the missing wake-up).
+  * run_sync: both `if timeout is not None:` guards turned into `if timeout:` (timeout=0 ignored)  -> caught at
+    seeds 1-3 (C38.run_sync.no_timeout_error; never-finishing functions: C38.run_sync.never_returns) since the
+    boundary timeouts 0 / 0.0 / 1e-9 were added.  Earlier version: missed (smallest timeout was 0.25 s).
   * call_at without `max(0, ...)` (DESIGN)                                      -> NOT caught: equivalent; asyncio's call_later accepts a
     negative delay and fires it at once, only the (unspecified) order among already-past deadlines changes.
 """
@@ -68,14 +77,14 @@ RULE = (
     "main: Hypothesis op-lists (3..30 ops) over {add_callback, spawn_callback, 4 timeout forms x 10 deadline offsets "
     "(multiples of 0.25 s incl. past/now/far), remove_timeout, add_future (asyncio/concurrent, done/later), fire, "
     "advance, jump, settle} x 12 callback behaviours; threads: busy mode k in 2..4 producers x m<=40 payloads + loop-thread "
-    "payloads, idle-target mode k in 1..4 x m<=25, each producer plain / inside asyncio.run / inside its own IOLoop; run_sync: 8 function kinds x durations x timeouts. non-trivial (main) = >=3 scheduled items with a "
+    "payloads, idle-target mode k in 1..4 x m<=25, each producer plain / inside asyncio.run / inside its own IOLoop; run_sync: 10 function kinds x durations x timeouts {None, 0.25..100 s, 0, 0.0, 1e-9}. non-trivial (main) = >=3 scheduled items with a "
     "removal or a raising callback among them; distinct = SHA-1 of the case"
 )
 ASSUMPTIONS = [
     "deadlines and clock steps are multiples of 0.25 s at epoch scale, so absolute<->relative conversion is exact",
     "order between timeouts with equal effective deadlines, and between callbacks and timeouts, is unspecified",
     "cross-thread order is unspecified; the thread part cannot enumerate interleavings (the OS schedules them)",
-    "run_sync ties (coroutine finishing exactly at the timeout) are not generated",
+    "run_sync ties at positive timeouts (coroutine finishing exactly at the timeout) are not generated; at timeout 0 / 1e-9 the EITHER classes are as stated in the module docstring",
 ]
 TECHNIQUE = "property-based testing (Hypothesis): generated scheduling programs against a reference model on a virtual clock; thread stress for exactly-once / per-thread FIFO"
 LEVEL_TEXT = "sampled scheduling programs; thread interleavings are whatever the OS produces (stress, not enumeration)"
@@ -678,7 +687,7 @@ def run_sync_case(ctx, case):
                 ctx.fail("C38.run_sync.coroutine_not_cancelled", detail)
             if kind == "future_never" and never_fut and not never_fut[0].cancelled():
                 ctx.fail("C38.run_sync.future_not_cancelled", detail)
-            if elapsed < timeout:
+            if loop.time() < t0 + timeout:  # the deadline as it exists on the loop's clock (1e-9 is below one ulp)
                 ctx.fail("C38.run_sync.timed_out_early", detail)
         else:
             if kind in ("coro_value", "gen_value", "done_future", "coro_nowait"):
@@ -706,7 +715,10 @@ def run_sync_case(ctx, case):
         except Exception as e:  # noqa: BLE001 - any failure here is the clause
             r2 = repr(e)
         if r2 != "again":
-            ctx.fail("C38.run_sync.loop_not_reusable", dict(detail, second=repr(r2)))
+            # narrow class of the open finding: the function's outcome was known when func() returned and the
+            # (boundary) timeout fired in that same loop iteration
+            sig = "C38.run_sync.loop_not_reusable" + (".sync_function_boundary_timeout" if (boundary and synchronous) else "")
+            ctx.fail("C38.run_sync.loop_not_reusable", dict(detail, second=repr(r2)), sig=sig)
         esc = [r for r in logs.records if r[1] >= 40]
         if esc:
             ctx.fail("C38.run_sync.error_logged", dict(detail, records=[(r[0], r[2][:200]) for r in esc[:3]]))
